@@ -112,6 +112,11 @@ def worker(seed, widx, nworkers, plan, scratch):
         if r2.random() < 0.2 and len(H) >= 2:
             p = r2.randrange(len(H))
             plans += [([p, q], "AB"[(q + i) % 2]) for q in range(p + 1, len(H) + 1)]
+        # two restarts around every operation that changes a job without changing any counter
+        # (progress info, drop marks): "nothing happened since the last save" must not be concluded
+        for k, st_ in enumerate(H):
+            if st_[0] == "send" and st_[2] in ("qsetinfo", "qdrop"):
+                plans.append(([k, k + 1], "AB"[(k + i) % 2]))
         for positions, variant in plans:
             steps = with_restarts(H, positions, salt=i)
             res = _run(scratch, steps, ch, variant)
